@@ -353,3 +353,117 @@ theorem emitL_ids_sublist : ∀ (ds : List DNode), plainL ds = true → (idsL (e
 end
 
 end SnootyVerif.Visitor
+
+namespace SnootyVerif.Visitor
+
+/-! ### no `_DefinitionListTerm` survives (C04) -/
+
+theorem cleanL_append (a b : List T) : cleanL (a ++ b) = (cleanL a && cleanL b) := by
+  induction a with
+  | nil => simp [cleanL]
+  | cons t ts ih => simp [cleanL, ih, Bool.and_assoc]
+
+theorem T.clean_eq (t : T) : t.clean = (t.kind != .term && t.cleanBelow) := by
+  cases t; simp [T.clean, T.cleanBelow, Bool.and_assoc]
+
+theorem T.cleanBelow_eq (t : T) : t.cleanBelow = (cleanL t.term && cleanL t.cs) := by
+  cases t; simp [T.cleanBelow]
+
+/-- what a host may be handed: nothing of kind `term` below it, and a term only if the host is a definition list item -/
+def okItem (host : AKind) (x : T) : Prop := x.cleanBelow = true ∧ (x.kind = .term → host = .dlItem)
+
+theorem attachT_cleanBelow (top p : T) (ht : top.cleanBelow = true) (hp : okItem top.kind p) : (attachT top p).cleanBelow = true := by
+  obtain ⟨hpc, hpk⟩ := hp
+  unfold attachT attach
+  by_cases hk : p.kind = .term
+  · have hd := hpk hk
+    simp only [hk, hd, if_true]
+    rw [T.cleanBelow_eq] at ht hpc ⊢
+    simp only [Bool.and_eq_true] at ht hpc ⊢
+    exact ⟨hpc.2, ht.2⟩
+  · simp only [hk, if_false]
+    by_cases h1 : top.kind = .noChildren
+    · simpa [h1] using ht
+    · by_cases h2 : top.kind = .leaf
+      · simpa [h1, h2] using ht
+      · simp only [h1, h2, if_false]
+        simp only [T.cleanBelow, cleanL_append, cleanL, Bool.and_true, Bool.and_eq_true]
+        rw [T.cleanBelow_eq] at ht
+        simp only [Bool.and_eq_true] at ht
+        refine ⟨ht.1, ht.2, ?_⟩
+        rw [T.clean_eq]
+        simp [hk, hpc]
+
+theorem attachAllT_cleanBelow (ps : List T) (top : T) (ht : top.cleanBelow = true) (hp : ∀ p ∈ ps, okItem top.kind p) :
+    (attachAllT top ps).cleanBelow = true := by
+  induction ps generalizing top with
+  | nil => exact ht
+  | cons p ps ih =>
+    rw [attachAllT]
+    apply ih
+    · exact attachT_cleanBelow top p ht (hp p (by simp))
+    · intro q hq
+      rw [attachT_kind]
+      exact hp q (List.mem_cons_of_mem _ hq)
+
+mutual
+theorem emit_okItem : ∀ (d : DNode) (host : AKind), termsOk host d = true → ∀ x ∈ emit d, okItem host x
+  | .mk id pushes exit kind dskip cs, host, ht => by
+    unfold termsOk at ht
+    unfold emit
+    cases exit with
+    | skipNode => intro x hx; simp at hx
+    | skipDeparture => exact emitL_okItem cs host ht
+    | skipChildren =>
+      simp only [] at ht ⊢
+      split
+      · intro x hx; simp at hx
+      · next hp =>
+        intro x hx
+        simp at hx; subst hx
+        refine ⟨by simp [T.cleanBelow, cleanL], ?_⟩
+        intro hk
+        simp at hk
+        subst hk
+        have : pushes ≠ 0 := hp
+        simpa [this] using ht
+    | normal =>
+      simp only [] at ht ⊢
+      split
+      · next hp =>
+        subst hp
+        exact emitL_okItem cs host (by simpa using ht)
+      · next hp =>
+        have hp' : (pushes == 0) = false := by simpa using hp
+        simp only [hp', Bool.false_eq_true, if_false, Bool.and_eq_true] at ht
+        intro x hx
+        simp at hx; subst hx
+        refine ⟨?_, ?_⟩
+        · apply attachAllT_cleanBelow
+          · simp [T.cleanBelow, cleanL]
+          · intro p hp2
+            simpa using emitL_okItem cs kind ht.2 p hp2
+        · intro hk
+          simp at hk
+          exact kindCond ht.1 hk
+theorem emitL_okItem : ∀ (ds : List DNode) (host : AKind), termsOkL host ds = true → ∀ x ∈ emitL ds, okItem host x
+  | [], _, _ => by intro x hx; simp [emitL] at hx
+  | d :: ds, host, ht => by
+    unfold termsOkL at ht
+    simp only [Bool.and_eq_true] at ht
+    intro x hx
+    unfold emitL at hx
+    rcases List.mem_append.mp hx with hx | hx
+    · exact emit_okItem d host ht.1 x hx
+    · exact emitL_okItem ds host ht.2 x hx
+end
+
+/-- the root the specification builds holds no bookkeeping node -/
+theorem spec_clean (id : Nat) (kind : AKind) (cs : List DNode) (hk : kind ≠ .term) (ht : termsOkL kind cs = true) :
+    (attachAllT (.mk id kind [] []) (emitL cs)).clean = true := by
+  rw [T.clean_eq]
+  have h := attachAllT_cleanBelow (emitL cs) (.mk id kind [] []) (by simp [T.cleanBelow, cleanL])
+    (by intro p hp; simpa using emitL_okItem cs kind ht p hp)
+  simp [h, hk]
+
+end SnootyVerif.Visitor
